@@ -3,6 +3,7 @@
 package main
 
 import (
+	"runtime/pprof"
 	"strings"
 	"encoding/json"
 	"flag"
@@ -128,8 +129,14 @@ func main() {
 	trace := flag.Bool("trace", false, "print the trace on replay")
 	hashes := flag.String("hashes", "", "write 'run tracehash steps class' per run to this file (determinism self-test)")
 	gmp := flag.Int("gomaxprocs", 1, "GOMAXPROCS of the worker")
+	cpuprof := flag.String("cpuprofile", "", "write a CPU profile (development aid)")
 	flag.Parse()
 	runtime.GOMAXPROCS(*gmp)
+	if *cpuprof != "" {
+		f, _ := os.Create(*cpuprof)
+		pprof.StartCPUProfile(f)
+		defer pprof.StopCPUProfile()
+	}
 	detsim.PanicFramePrefixes = []string{"github.com/boz/kcache.", "github.com/boz/go-lifecycle.", "github.com/boz/kcache/join.", "github.com/boz/kcache/types/"}
 
 	switch {
